@@ -618,12 +618,19 @@ func genF32(t *rapid.T, label string) float32 {
 
 func genBytes(t *rapid.T) BytesCase {
 	var hdr []byte
-	switch rapid.IntRange(0, 3).Draw(t, "hdrKind") {
+	switch rapid.IntRange(0, 4).Draw(t, "hdrKind") {
 	case 0:
 		hdr = make([]byte, 80)
 	case 1:
 		hdr = make([]byte, 80)
 		copy(hdr, "solid "+rapid.StringMatching(`[a-z ]{0,40}`).Draw(t, "name"))
+	case 2: // a text title padded with blanks, as CAD exporters write it: all 80 bytes printable
+		hdr = bytes.Repeat([]byte{' '}, 80)
+		title := rapid.SampledFrom([]string{"solid ", "solid\t", "SOLID ", "", "binary stl "}).Draw(t, "titleStart") + rapid.StringMatching(`[A-Za-z0-9_. -]{0,60}`).Draw(t, "title")
+		copy(hdr, title)
+		if rapid.Bool().Draw(t, "newlineEnd") {
+			hdr[79] = '\n'
+		}
 	default:
 		hdr = rapid.SliceOfN(rapid.Byte(), 80, 80).Draw(t, "hdr")
 	}
